@@ -68,6 +68,46 @@ type sqlGen struct {
 	wideN    int
 	wideDone bool // the wide clause was really emitted
 	noEdges  bool // inside a wide clause the deliberately malformed shapes are switched off
+
+	// census of the operator / function tokens emitted into the select list ("sel|") and the
+	// having clause ("hav|"): "<region>|op=<BinaryOPString>" and "<region>|fn=<function name>".
+	// Compared with the parsed statement for the evidence only (censusMismatch in census_test.go).
+	census map[string]int
+	// parents: kinds of the expression nodes open around the current position ('b' binary incl. a
+	// having comparison, 'p' paren, 'c' call); the innermost one is what the listener has on top of
+	// its expression stack when an atom is visited.
+	parents  []byte
+	nowParam bool // now(<ident>) was written: the ident lands in the select list (observation)
+	// filterInExpr: an identFilter was written where the enclosing node is a binary / paren
+	filterInExpr bool
+}
+
+func (g *sqlGen) enter(kind byte) { g.parents = append(g.parents, kind) }
+func (g *sqlGen) leave()          { g.parents = g.parents[:len(g.parents)-1] }
+
+// filterBecomesOperand: a tag filter written here ends up as operand of the enclosing node.
+func (g *sqlGen) filterBecomesOperand() bool {
+	return len(g.parents) > 0 && g.parents[len(g.parents)-1] != 'c'
+}
+
+// count notes one operator ("op") or function ("fn") token of the current region.
+func (g *sqlGen) count(kind, name string) {
+	region := "sel|"
+	if g.inHaving {
+		region = "hav|"
+	}
+	g.census[region+kind+"="+name]++
+}
+
+// cmpOpName maps the spelling of a binaryOperator token to the statement model's operator name.
+func cmpOpName(tok string) string {
+	switch tok {
+	case "<>":
+		return "!="
+	case "=~":
+		return "like"
+	}
+	return tok
 }
 
 // wideTargets: the clause that gets wideN terms.
@@ -93,6 +133,7 @@ func newSQLGen(t *rapid.T) *sqlGen {
 		spacing:  rapid.SampledFrom([]int{0, 0, 1, 2}).Draw(t, "spacing"),
 		kinds:    map[string]bool{},
 		edges:    map[string]bool{},
+		census:   map[string]int{},
 		// without an explicit bound the statement gets [now-1h, now]
 		startClock: true,
 		endClock:   true,
@@ -354,12 +395,18 @@ func (g *sqlGen) fieldExpr0(depth int, top bool) {
 	}
 	switch k {
 	case 1: // binary
+		g.enter('b')
 		g.operand(depth - 1)
-		g.p(rapid.SampledFrom([]string{"+", "-", "*", "/"}).Draw(g.t, "arith"))
+		op := rapid.SampledFrom([]string{"+", "-", "*", "/"}).Draw(g.t, "arith")
+		g.count("op", op)
+		g.p(op)
 		g.operand(depth - 1)
+		g.leave()
 	case 2: // paren
 		g.p("(")
+		g.enter('p')
 		g.operand(depth - 1)
+		g.leave()
 		g.p(")")
 	case 3:
 		g.call(depth)
@@ -380,14 +427,22 @@ func (g *sqlGen) atom(identOnly bool) {
 			g.hugeNumber()
 			return
 		}
+		g.count("atom", "number")
 		g.number()
 	default:
 		m := g.mark()
+		g.count("atom", "field")
 		g.ident("field", fieldPool, false)
 		if !g.inHaving {
 			g.fieldCands = append(g.fieldCands, g.since(m))
 		}
 		if g.chance(3, "identFilter") { // ident identFilter : f[host='a']
+			if g.filterBecomesOperand() {
+				// observation (not a C17 matter): the listener makes the filter an operand of the
+				// enclosing binary / paren node and drops the written operand; determinism and
+				// the wire round trip must hold for the statement it builds all the same
+				g.filterInExpr = true
+			}
 			g.p("[")
 			g.tagFilter(1)
 			g.p("]")
@@ -402,8 +457,12 @@ func (g *sqlGen) call(depth int) {
 
 // callN emits exprFunc with n params.
 func (g *sqlGen) callN(depth, n int) {
-	g.kw(rapid.SampledFrom(funcNames).Draw(g.t, "func"))
+	fn := rapid.SampledFrom(funcNames).Draw(g.t, "func")
+	g.count("fn", fn)
+	g.kw(fn)
 	g.p("(")
+	g.enter('c')
+	defer g.leave()
 	for i := 0; i < n; i++ {
 		if i > 0 {
 			g.p(",")
@@ -430,9 +489,15 @@ func (g *sqlGen) wideArith() {
 	g.wideDone = true
 	g.noEdges = true
 	defer func() { g.noEdges = false }()
+	if g.wideN > 1 {
+		g.enter('b')
+		defer g.leave()
+	}
 	for i := 0; i < g.wideN; i++ {
 		if i > 0 {
-			g.p(rapid.SampledFrom([]string{"+", "+", "-", "*", "/"}).Draw(g.t, "arith"))
+			op := rapid.SampledFrom([]string{"+", "+", "-", "*", "/"}).Draw(g.t, "arith")
+			g.count("op", op)
+			g.p(op)
 		}
 		d := 1
 		if g.chance(12, "wideTermCall") {
@@ -492,7 +557,9 @@ func (g *sqlGen) wideBoolExpr() {
 	n := g.wideN / 2
 	for i := 0; i < n; i++ {
 		if i > 0 {
-			g.kw(rapid.SampledFrom([]string{"and", "and", "or"}).Draw(g.t, "beLogic"))
+			lop := rapid.SampledFrom([]string{"and", "and", "or"}).Draw(g.t, "beLogic")
+			g.count("op", lop)
+			g.kw(lop)
 		}
 		g.boolExpr(rapid.SampledFrom([]int{2, 3, 3}).Draw(g.t, "wideCmpDepth"))
 	}
@@ -684,6 +751,9 @@ func (g *sqlGen) emitNow(offsetSign string, n int64, unit string, plain bool) {
 	g.kw("now")
 	g.p("(")
 	if g.chance(2, "nowParam") { // nowFunc : T_NOW ( exprFuncParams? ) -- a parameter is tolerated
+		// observation: the listener visits it like a select expression and appends it to the select
+		// list (`select g from m where time > now(f)` selects g and f)
+		g.nowParam = true
 		g.ident("field", fieldPool, false)
 	}
 	g.p(")")
@@ -841,7 +911,9 @@ func (g *sqlGen) boolExpr(depth int) {
 	switch k {
 	case 1:
 		g.boolExpr(depth - 1)
-		g.kw(rapid.SampledFrom([]string{"and", "or"}).Draw(g.t, "beLogic"))
+		lop := rapid.SampledFrom([]string{"and", "or"}).Draw(g.t, "beLogic")
+		g.count("op", lop)
+		g.kw(lop)
 		g.boolExpr(depth - 1)
 	case 2:
 		g.p("(")
@@ -852,8 +924,11 @@ func (g *sqlGen) boolExpr(depth int) {
 		if d < 1 {
 			d = 1
 		}
+		g.enter('b')
+		defer g.leave()
 		g.operand(d)
 		op := rapid.SampledFrom([]string{"=", "<>", "!=", "<", "<=", ">", ">=", "like", "=~"}).Draw(g.t, "cmpOp")
+		g.count("op", cmpOpName(op))
 		if op == "like" {
 			g.kw(op)
 		} else {
